@@ -192,8 +192,8 @@ int main(int argc, char** argv) {
     R.rule = "one evaluation = one application of the real KickMap/RotationMap; distinct = FNV of case + output grid; trivial = zero displacement / angle 0 on constant data";
     R.sample_every = 3000;
     const bool T = true /* the wide lattices run in both tiers */; const bool D = R.thorough(); (void)D;
-    part_whole(T ? std::vector<unsigned>{8, 9, 16, 17, 32, 33} : std::vector<unsigned>{8, 9}, T ? std::vector<unsigned>{1, 2, 3} : std::vector<unsigned>{1, 2});
-    part_poly(T ? std::vector<unsigned>{12, 13, 16, 33} : std::vector<unsigned>{12, 13}, T ? 256 : 16);
+    part_whole(D ? std::vector<unsigned>{8, 9, 16, 17, 32, 33, 64, 65} : std::vector<unsigned>{8, 9, 16, 17, 32, 33}, D ? std::vector<unsigned>{1, 2, 3, 4} : std::vector<unsigned>{1, 2, 3});
+    part_poly(D ? std::vector<unsigned>{12, 13, 16, 33, 64} : std::vector<unsigned>{12, 13, 16, 33}, D ? 1024 : 256);
     part_rot(T ? std::vector<unsigned>{12, 13, 16} : std::vector<unsigned>{12, 13}, T ? std::vector<float>{0.f, 0.05f, -0.1f, 0.2617994f, 0.7853982f, 1.5707964f} : std::vector<float>{0.f, 0.1f, -0.2617994f});
     part_reuse(T ? std::vector<unsigned>{8, 9} : std::vector<unsigned>{8}, D ? 4 : 3);
     return R.finish();
